@@ -89,7 +89,35 @@ def main():
     print("confirmed" if ok else "NOT CONFIRMED", json.dumps(rec["confirm_with_patch"]), json.dumps(rec["confirm_without_patch"]))
     # ---- 2. run the checks against it
     results = {}
-    if ok:
+    sandbox = "--sandbox" in sys.argv
+    if ok and sandbox:
+        # the same checks against the scratch worktree (HV_REPO) with their own build/evidence directories (HV_SANDBOX):
+        # lets several changes be tried at once and leaves /repo alone
+        sb = "/tmp/hvs-" + sid
+        sh("rm -rf %s; mkdir -p %s/build" % (sb, sb))
+        for t in ("target", "target-num"):
+            if os.path.exists(os.path.join(VERIF, "build", t)):
+                sh("cp -r %s %s/build/%s" % (os.path.join(VERIF, "build", t), sb, t))
+        sh("git checkout -- . && git clean -fdq tests && git apply %s" % patch, cwd=wt)
+        try:
+            for p in props:
+                rc, out = sh("HV_REPO=%s HV_SANDBOX=%s python3 tools/check.py --property %s --tier quick" % (wt, sb, p), cwd=VERIF)
+                vio = [l for l in out.split("\n") if l.startswith("VIOLATION") or l.startswith("KNOWN-FINDING")]
+                what = []
+                for l in vio:
+                    m = re.search(r"replay=(\S+)", l)
+                    if m and os.path.exists(m.group(1)):
+                        try:
+                            r = json.load(open(m.group(1)))
+                            what.append(dict(identity=r.get("identity"), what=r.get("what", "")[:400], found_failing_input=r.get("found_failing_input")))
+                        except Exception:
+                            pass
+                results[p] = dict(exit=rc, lines=[re.sub(r"/tmp/hvs-[^/]+", "/verif", l) for l in vio], reports=what)
+                print(sid, p, "exit", rc, "; ".join(w["identity"] for w in what))
+        finally:
+            sh("git checkout -- .", cwd=wt)
+            sh("rm -rf %s" % sb)
+    elif ok:
         rc, out = sh("git -C /repo status --porcelain")
         if out.strip():
             print("/repo is not clean; refusing")
@@ -126,6 +154,7 @@ def main():
         if f.endswith(".hyeong") or f.endswith(".txt"):
             shutil.copy(os.path.join(mdir, f), dst)
     rec["what_it_needs"] = meta.get("needs", "")
+    rec["checks_ran_against"] = "scratch worktree with the change (HV_REPO/HV_SANDBOX)" if sandbox else "/repo with the change applied"
     rec["ran"] = ("scratch worktree: git apply; cargo test --offline --no-fail-fast (existing suite + demonstration); git checkout; demonstration again. "
                   "/repo: git apply; python3 tools/check.py --property <P> --tier quick for P in %s; git checkout -- ." % ",".join(props))
     json.dump(rec, open(os.path.join(dst, "meta.json"), "w"), indent=1, ensure_ascii=False)
